@@ -129,4 +129,60 @@ theorem int_of_power_of_ten (k : Nat) :
     Dec.toInt { neg := false, coeff := 1, exp := k } = ((10 ^ k : Nat) : Int) := by
   simp [Dec.toInt]
 
+/-- every context operation of the decimal model ends in `fix`: its result has ≤ 28 digits -/
+theorem dec_ops_fix_digits (x y d : Dec) :
+    (Dec.add x y = .ok d → d.digits ≤ 28) ∧ (Dec.sub x y = .ok d → d.digits ≤ 28) ∧
+    (Dec.mul x y = .ok d → d.digits ≤ 28) ∧ (Dec.div x y = .ok d → d.digits ≤ 28) ∧
+    (Dec.neg' x = .ok d → d.digits ≤ 28) ∧ (Dec.abs' x = .ok d → d.digits ≤ 28) := by
+  refine ⟨?_, ?_, ?_, ?_, ?_, ?_⟩
+  · intro h; exact Dec.fix_digits _ _ h
+  · intro h; exact Dec.fix_digits _ _ h
+  · intro h; exact Dec.fix_digits _ _ h
+  · intro h
+    unfold Dec.div at h
+    split at h
+    · split at h <;> cases h
+    · exact Dec.fix_digits _ _ h
+  · intro h
+    unfold Dec.neg' at h
+    split at h <;> exact Dec.fix_digits _ _ h
+  · intro h
+    unfold Dec.abs' Dec.neg' Dec.pos' at h
+    split at h <;> split at h <;> exact Dec.fix_digits _ _ h
+
+/-- `-` and `/` as operators: whatever the operand types, a Decimal result has ≤ 28 digits -/
+theorem sub_div_digits (a b v : Val) :
+    (pySub a b = .ok v → (∃ d, v = .dec d false ∧ d.digits ≤ 28) ∨ ∃ i, v = .int i) ∧
+    (pyDiv a b = .ok v → ∃ d, v = .dec d false ∧ d.digits ≤ 28) := by
+  constructor
+  · intro h
+    unfold pySub at h
+    split at h
+    · cases h; exact Or.inr ⟨_, rfl⟩
+    · split at h
+      · rename_i x y _ _
+        left
+        unfold liftDec at h
+        split at h
+        · rename_i d hd
+          cases h
+          exact ⟨d, rfl, (dec_ops_fix_digits x y d).2.1 hd⟩
+        · cases h
+      · split at h <;> simp [U] at h
+  · intro h
+    unfold pyDiv at h
+    split at h
+    · split at h
+      · cases h
+      · simp [U] at h
+    · split at h
+      · rename_i x y _ _
+        unfold liftDec at h
+        split at h
+        · rename_i d hd
+          cases h
+          exact ⟨d, rfl, (dec_ops_fix_digits x y d).2.2.2.1 hd⟩
+        · cases h
+      · split at h <;> simp [U] at h
+
 end SqProps.C04
